@@ -22,11 +22,19 @@ RULE_TEXT = "one instance = one branch formula, guard, spline identity, breakpoi
 ASSUMPTIONS = ["Pnom > Pmin, 0 < E <= 1", "monotonicity of the two smoothing cubics between their end data is not decided", "R-C07-5 evaluates the band-width expression on a grid of pressure ranges (1e-4 .. 1e3 m, incl. the option defaults), not for every real range"]
 
 
+SPLINE_PARAMS = ["x1", "x2", "f1", "f2", "df1", "df2"]        # refreshed from the signature of cubic_spline in run()
+
+
 def spline_hook(record):
     def hook(name, node, args, kwargs, st, ex, recv):
         if name == "cubic_spline":
             i = len(record)
-            record.append(list(args))
+            bound = list(args)
+            for p_ in SPLINE_PARAMS[len(bound):]:            # keyword arguments, bound by the helper's own parameter names
+                if p_ not in kwargs:
+                    raise ExtractError("cubic_spline called without a value for %s" % p_)
+                bound.append(kwargs[p_])
+            record.append(bound)
             return tuple(Opaque("spline%d.%s" % (i, k)) for k in "abcd")
         return NotImplemented
     return hook
@@ -48,6 +56,9 @@ def option_defaults(repo):
 
 
 def run(repo, chk):
+    SPLINE_PARAMS[:] = [a.arg for a in repo.func(B.SPLINE, "cubic_spline").args.args]
+    if len(SPLINE_PARAMS) != 6:
+        raise AnchorError("cubic_spline no longer takes (x1, x2, f1, f2, df1, df2): %s" % SPLINE_PARAMS)
     delta, slope = cs("pdd_smoothing_delta"), cs("pdd_slope")
     h, elev, pmin, pnom = cs("h"), cs("elev"), cs("pmin"), cs("pnom")
     d, D = cs("demand"), cs("expected_demand")
